@@ -362,15 +362,16 @@ theorem get_spec {s : State} (h : InvK s) {i : Nat} (hi : i < idBound) (f : Fram
 
 /-! ### head -/
 
-/-- C05: `head(topic, ctx)` is the newest stored frame of exactly that context and topic -/
-theorem head_spec {s : State} (h : InvK s) {t : List Nat} {c : Nat} (ht : NulFree t)
+/-- the stored frames of one (context, topic), oldest first -/
+def topicFrames (s : State) (c : Nat) (t : List Nat) : List Frame :=
+  (frames s).filter (fun f => decide (f.ctx = c) && decide (f.topic = t))
+
+/-- the prefix scan `ctx‖topic‖0x00` of the topic index, resolved through the primary
+    partition, is exactly the stored frames of that context and topic, oldest first -/
+theorem topicScan_frames {s : State} (h : InvK s) {t : List Nat} {c : Nat} (ht : NulFree t)
     (hc : c < idBound) :
-    s.head t c = ((frames s).filter (fun f => decide (f.ctx = c) && decide (f.topic = t))).getLast? := by
-  unfold State.head
-  rw [hasNul_eq_false_iff.2 ht]
-  simp only [Bool.false_eq_true, if_false]
-  rw [findSome?_reverse]
-  congr 1
+    (Part.scanPrefix (topicPrefix c t) s.idxT).filterMap (fun kv => s.get (idOfTopicKey kv.1)) =
+      topicFrames s c t := by
   apply eq_of_sorted_of_mem_iff (fun f : Frame => f.id)
   · refine List.Pairwise.filterMap _ ?_ (List.Pairwise.and_mem.1 (sorted_scanPrefix h.sT))
     rintro ⟨k, u⟩ ⟨k', u'⟩ ⟨hm, hm', hlt⟩ b hb b' hb'
@@ -392,7 +393,7 @@ theorem head_spec {s : State} (h : InvK s) {t : List Nat} {c : Nat} (ht : NulFre
     exact (topicKey_lt_iff wg.id_lt wg'.id_lt).1 hlt
   · exact pairwise_filter_of _ (frames_sorted h)
   · intro f
-    simp only [List.mem_filterMap, List.mem_filter]
+    simp only [topicFrames, List.mem_filterMap, List.mem_filter]
     constructor
     · rintro ⟨⟨k, u⟩, hm, hgk⟩
       have hk := (Part.mem_scanPrefix _).1 hm
@@ -411,6 +412,39 @@ theorem head_spec {s : State} (h : InvK s) {t : List Nat} {c : Nat} (ht : NulFre
       · exact (topicPrefix_isPrefixOf_topicKey hc wf.ctx_lt ht wf.nul).2 ⟨hsc.1.symm, hsc.2.symm⟩
       · simp only [idOfTopicKey_topicKey wf.id_lt]
         exact h.get_of_mem hf
+
+/-- the ids the gc scan sees for a topic are the ids of its stored frames, oldest first -/
+theorem topicScan_ids {s : State} (h : InvK s) {t : List Nat} {c : Nat} (ht : NulFree t)
+    (hc : c < idBound) :
+    (Part.scanPrefix (topicPrefix c t) s.idxT).map (fun kv => idOfTopicKey kv.1) =
+      (topicFrames s c t).map (·.id) := by
+  rw [← topicScan_frames h ht hc]
+  have key : ∀ l : List (Key × Unit), (∀ kv ∈ l, kv ∈ Part.scanPrefix (topicPrefix c t) s.idxT) →
+      l.map (fun kv => idOfTopicKey kv.1) =
+        (l.filterMap (fun kv => s.get (idOfTopicKey kv.1))).map (·.id) := by
+    intro l
+    induction l with
+    | nil => intro _; rfl
+    | cons a l ih =>
+      intro hl
+      have ha := hl a (by simp)
+      have hk := (Part.mem_scanPrefix _).1 ha
+      obtain ⟨k, u⟩ := a
+      obtain ⟨g, hg, rfl⟩ := (h.tKeys k).1 (by cases u; exact hk.1)
+      have wg := h.wfFrame hg
+      have : s.get (idOfTopicKey (topicKey g.ctx g.topic g.id)) = some g := by
+        rw [idOfTopicKey_topicKey wg.id_lt]; exact h.get_of_mem hg
+      simp only [List.map_cons, List.filterMap_cons, this]
+      rw [ih (fun kv hkv => hl kv (List.mem_cons_of_mem _ hkv)), idOfTopicKey_topicKey wg.id_lt]
+  exact key _ (fun _ h => h)
+
+/-- C05: `head(topic, ctx)` is the newest stored frame of exactly that context and topic -/
+theorem head_spec {s : State} (h : InvK s) {t : List Nat} {c : Nat} (ht : NulFree t)
+    (hc : c < idBound) : s.head t c = (topicFrames s c t).getLast? := by
+  unfold State.head
+  rw [hasNul_eq_false_iff.2 ht]
+  simp only [Bool.false_eq_true, if_false]
+  rw [findSome?_reverse, topicScan_frames h ht hc]
 
 /-- a queried topic containing NUL has no head (no stored topic contains NUL) -/
 theorem head_nul {s : State} {t : List Nat} {c : Nat} (ht : hasNul t = true) : s.head t c = none := by
@@ -465,6 +499,7 @@ theorem reopen_inv {s : State} (h : InvK s) : Inv s.reopen := by
 def WfOp : Op → Prop
   | .append f id => id < idBound ∧ f.ctx < idBound
   | .importF f => f.id < idBound ∧ f.ctx < idBound
+  | .remove id => id < idBound
   | _ => True
 
 theorem step_inv {s : State} (h : Inv s) {op : Op} (w : WfOp op) : Inv (s.step op) := by
